@@ -2,6 +2,7 @@
 import bloom_rules as B
 import generic_lints
 import hazard_lints
+import reader_twins_roles
 import predicates
 import c19_rules
 
@@ -21,6 +22,7 @@ def run(facts, tier):
         ("emptiness predicate support", lambda fa: predicates.obligations(fa, ['bloom_filter_alloc']), 2, "the emptiness predicate still consults every field it depended on in the reviewed tree (spec/predicates.json)"),
         ("bit-array extents", B.extent_units, 10, "every fill / copy / count / combine / write of the bit array covers exactly capacity_bits_ >> 3 bytes"),
         ("tautologies", lambda fa: generic_lints.tautologies(fa, ('filters/',)), 2, "no comparison / assignment / min-max with two identical operands, no if-else with identical arms"),
+        ("reader twin roles", lambda fa: reader_twins_roles.obligations(fa, ["filters"]), 1, "the stream reader and the byte reader hand booleans of the same origin (same flag bit / same comparison with the dirty marker) to the constructor"),
         ("hazards", lambda fa: hazard_lints.hazards(fa, ('filters/',)), 2, "no 64-bit value silently narrowed at a call of a library function, no numeric_limits<floating>::min() as a lowest value, no random engine constructed inside a loop, no read of a moved-from parameter, no unguarded unsigned `x - c` loop bound (reviewed instances in spec/hazards.json)"),
         ("duplicate operands", lambda fa: generic_lints.duplicate_conjuncts(fa, ('filters/',)), 2, "no logical chain tests the same operand twice (copy-paste of the wrong peer)"),
         ("state-writing shortcuts", lambda fa: generic_lints.state_writing_shortcuts(fa, ['bloom_filter_alloc']), 1, "no merge / update branch writes fields and returns early past the steps all other paths run (compaction loop, totals, cached counts); one reviewed exception"),
